@@ -172,8 +172,19 @@ func watch(prop string, replay any, f func()) {
 			// inside a synctest bubble a call that can never return (every goroutine of the
 			// bubble blocked for good) surfaces as this panic of synctest.Test
 			if r := recover(); r != nil {
-				if strings.Contains(fmt.Sprint(r), "deadlock: all goroutines in bubble are blocked") {
+				msg := fmt.Sprint(r)
+				if strings.Contains(msg, "deadlock: all goroutines in bubble are blocked") {
 					fail("the call can never return: every goroutine involved is blocked for good (virtual-time deadlock)")
+				}
+				if strings.Contains(msg, "main bubble goroutine has exited but blocked goroutines remain") {
+					// only a violation when a goroutine is stuck inside the code under test
+					buf := make([]byte, 1<<18)
+					buf = buf[:runtime.Stack(buf, true)]
+					for _, g := range strings.Split(string(buf), "\n\n") {
+						if strings.Contains(g, "synctest bubble") && strings.Contains(g, "github.com/c2FmZQ/ech.") {
+							fail("a call into the library is still blocked after everything else (contexts cancelled, peers gone) has finished: " + strings.Join(strings.SplitN(g, "\n", 8)[:min(7, len(strings.SplitN(g, "\n", 8)))], " | "))
+						}
+					}
 				}
 				panic(r)
 			}
